@@ -6,6 +6,8 @@ Proof infrastructure for the parser model `ParseTok`: the state invariant, the s
 namespace Bardolph.ParseTok
 open Bardolph
 
+variable {t : Bool}
+
 /-- the tokens not yet consumed, the current one first -/
 def St.toks (st : St) : List Tok := st.cur :: st.rest
 
@@ -46,18 +48,18 @@ structure FailPost (st st' : St) : Prop where
   errors : ∃ new, new ≠ [] ∧ st'.errors = st.errors ++ new ∧ ∀ e ∈ new, lineOf st e.1
 
 /-- what a result must satisfy -/
-def Res.Good (st : St) : Res α → Prop
+def Res.Good (t : Bool) (st : St) : Res α → Prop
   | .ok _ st' => OkPost st st'
   | .fail st' => FailPost st st'
   | .raised _ _ => False
-  | .oof => True
+  | .oof => t = false
 
 /-- the specification of a parsing routine: from a state satisfying the invariant it either
 succeeds — invariant kept, only a prefix of the tokens consumed, no message added, loop stack of
 the same shape —, or fails with at least one new message carrying the line of a pending token,
 or runs out of fuel; it never raises -/
-structure Spec (m : M α) : Prop where
-  run : ∀ st, Inv st → (m st).Good st
+structure Spec (t : Bool) (m : M α) : Prop where
+  run : ∀ st, Inv st → (m st).Good t st
 
 theorem suffix_length {st st' : St} (h : st'.toks <:+ st.toks) :
     st'.rest.length ≤ st.rest.length := by
@@ -82,12 +84,12 @@ theorem FailPost.after {a b c : St} (h1 : OkPost a b) (h2 : FailPost b c) : Fail
   obtain ⟨new, hne, he, hl⟩ := h2.errors
   exact ⟨new, hne, by rw [he, h1.errors], fun e he' => lineOf_mono h1.suffix (hl e he')⟩
 
-theorem Res.Good.after {a b : St} (h1 : OkPost a b) {r : Res α} (h2 : r.Good b) : r.Good a := by
+theorem Res.Good.after {a b : St} (h1 : OkPost a b) {r : Res α} (h2 : r.Good t b) : r.Good t a := by
   cases r with
   | ok x s => exact h1.trans h2
   | fail s => exact FailPost.after h1 h2
   | raised k s => exact h2
-  | oof => trivial
+  | oof => exact h2
 
 /-! ## Running a `do` block -/
 
@@ -110,13 +112,13 @@ theorem getSt_bind (f : St → M β) (st : St) : (getSt >>= f) st = f st st := r
 
 /-! ## Composition rules -/
 
-theorem Spec.pure (a : α) : Spec (pure a : M α) := ⟨fun _ h => OkPost.refl h⟩
+theorem Spec.pure (a : α) : Spec t (pure a : M α) := ⟨fun _ h => OkPost.refl h⟩
 
-theorem Spec.bind {m : M α} {f : α → M β} (hm : Spec m) (hf : ∀ a, Spec (f a)) :
-    Spec (m >>= f) := by
+theorem Spec.bind {m : M α} {f : α → M β} (hm : Spec t m) (hf : ∀ a, Spec t (f a)) :
+    Spec t (m >>= f) := by
   refine ⟨fun st hst => ?_⟩
   have h1 := hm.run st hst
-  show (M.bind m f st).Good st
+  show (M.bind m f st).Good t st
   unfold M.bind
   cases hr : m st with
   | ok a s =>
@@ -124,13 +126,13 @@ theorem Spec.bind {m : M α} {f : α → M β} (hm : Spec m) (hf : ∀ a, Spec (
     exact Res.Good.after h1 ((hf a).run s h1.inv)
   | fail s => rw [hr] at h1; exact h1
   | raised k s => rw [hr] at h1; exact h1
-  | oof => trivial
+  | oof => rw [hr] at h1; exact h1
 
-theorem Spec.ite {c : Prop} [Decidable c] {t e : M α} (ht : Spec t) (he : Spec e) :
-    Spec (if c then t else e) := by
+theorem Spec.ite {c : Prop} [Decidable c] {a e : M α} (ht : Spec t a) (he : Spec t e) :
+    Spec t (if c then a else e) := by
   split <;> assumption
 
-theorem Spec.outOfFuel : Spec (outOfFuel : M α) := ⟨fun _ _ => trivial⟩
+theorem Spec.outOfFuel : Spec false (outOfFuel : M α) := ⟨fun _ _ => rfl⟩
 
 /-! ## Pointwise composition for the routines that push and pop the loop stack -/
 
@@ -141,30 +143,30 @@ structure OkPostX (st st' : St) : Prop where
   errors : st'.errors = st.errors
 
 /-- like `Good`, with the shape of the resulting loop stack given explicitly -/
-def Res.GoodX (st : St) (sh : List Bool) : Res α → Prop
+def Res.GoodX (t : Bool) (st : St) (sh : List Bool) : Res α → Prop
   | .ok _ st' => OkPostX st st' ∧ shape st'.loops = sh
   | .fail st' => FailPost st st'
   | .raised _ _ => False
-  | .oof => True
+  | .oof => t = false
 
-theorem Res.Good.toX {st : St} {r : Res α} (h : r.Good st) : r.GoodX st (shape st.loops) := by
+theorem Res.Good.toX {st : St} {r : Res α} (h : r.Good t st) : r.GoodX t st (shape st.loops) := by
   cases r with
   | ok a s => exact ⟨⟨h.inv, h.suffix, h.errors⟩, h.shape⟩
   | fail s => exact h
   | raised k s => exact h
-  | oof => trivial
+  | oof => exact h
 
-theorem Res.GoodX.toGood {st : St} {r : Res α} (h : r.GoodX st (shape st.loops)) : r.Good st := by
+theorem Res.GoodX.toGood {st : St} {r : Res α} (h : r.GoodX t st (shape st.loops)) : r.Good t st := by
   cases r with
   | ok a s => exact ⟨h.1.inv, h.1.suffix, h.1.errors, h.2⟩
   | fail s => exact h
   | raised k s => exact h
-  | oof => trivial
+  | oof => exact h
 
 theorem OkPostX.refl {st : St} (h : Inv st) : OkPostX st st := ⟨h, List.suffix_refl _, rfl⟩
 
 theorem Res.GoodX.after {a b : St} (h1 : OkPostX a b) {r : Res α} {sh : List Bool}
-    (h2 : r.GoodX b sh) : r.GoodX a sh := by
+    (h2 : r.GoodX t b sh) : r.GoodX t a sh := by
   cases r with
   | ok x s =>
     exact ⟨⟨h2.1.inv, h2.1.suffix.trans h1.suffix, h2.1.errors.trans h1.errors⟩, h2.2⟩
@@ -173,12 +175,12 @@ theorem Res.GoodX.after {a b : St} (h1 : OkPostX a b) {r : Res α} {sh : List Bo
     obtain ⟨new, hne, he, hl⟩ := h2.errors
     exact ⟨new, hne, by rw [he, h1.errors], fun e he' => lineOf_mono h1.suffix (hl e he')⟩
   | raised k s => exact h2
-  | oof => trivial
+  | oof => exact h2
 
 theorem goodX_bind {m : M α} {f : α → M β} {st : St} {sh1 sh2 : List Bool}
-    (hm : (m st).GoodX st sh1)
-    (hf : ∀ a s, OkPostX st s → shape s.loops = sh1 → (f a s).GoodX s sh2) :
-    ((m >>= f) st).GoodX st sh2 := by
+    (hm : (m st).GoodX t st sh1)
+    (hf : ∀ a s, OkPostX st s → shape s.loops = sh1 → (f a s).GoodX t s sh2) :
+    ((m >>= f) st).GoodX t st sh2 := by
   rw [bind_run]
   cases hr : m st with
   | ok a s =>
@@ -186,6 +188,6 @@ theorem goodX_bind {m : M α} {f : α → M β} {st : St} {sh1 sh2 : List Bool}
     exact Res.GoodX.after hm.1 (hf a s hm.1 hm.2)
   | fail s => rw [hr] at hm; exact hm
   | raised k s => rw [hr] at hm; exact hm
-  | oof => trivial
+  | oof => rw [hr] at hm; exact hm
 
 end Bardolph.ParseTok
